@@ -454,11 +454,16 @@ def rule_v3(chk: Check, ix: Index, ir):
                 "V3-py-version", "Parser.__init__:clamp", init.where,
                 f"the option must default to, and be clamped by, the running interpreter's version (found {st})")
     cv = ix.get("Parser.check_version")
-    body = [s for s in cv.node.body if not (isinstance(s, ast.Expr) and isinstance(s.value, ast.Constant))]
+    from ..pyflow import stmt_paths
     chk.count("V3-py-version")
-    ok = len(body) == 1 and isinstance(body[0], ast.If) and norm_stmt(body[0].test) == "self.py_version >= min_version" and \
-        [norm_stmt(s) for s in body[0].body] == ["return node"] and len(body[0].orelse) == 1 and isinstance(body[0].orelse[0], ast.Raise) \
-        and "min_version" in norm_stmt(body[0].orelse[0])
+    try:
+        ps = stmt_paths(cv.node.body)
+    except AnalysisError:
+        ps = set()
+    want_ok = {(("cond", "self.py_version >= min_version", True), ("exit", "return", "node"))}
+    rest = ps - want_ok
+    ok = want_ok <= ps and len(rest) == 1 and all(
+        pth[:-1] == (("cond", "self.py_version >= min_version", False),) and pth[-1][1] == "raise" and "min_version" in pth[-1][2] for pth in rest)
     chk.require(ok, "V3-py-version", "Parser.check_version:monotone", cv.where,
                 "check_version must return the node unchanged when py_version >= min_version and otherwise raise naming min_version "
                 "(monotone gate: a higher version never rejects what a lower one accepts)")
